@@ -15,6 +15,9 @@ import JsonV.Gen.Straight
 import JsonV.Model.Canon
 import JsonV.Lemmas.CanonForm
 import JsonV.Lemmas.CanonParse
+import JsonV.Lemmas.CanonRound
+import JsonV.Lemmas.CanonLex
+import JsonV.Props.C12
 
 namespace JsonV.Props.C13
 open JsonV JsonV.Model.Utf8 JsonV.Model.Compare JsonV.Model.Reorder JsonV.Spec.Utf16Order
@@ -205,6 +208,7 @@ theorem names the law it needs as a hypothesis.  All statements are for ALL byte
 section Canonicalize
 open JsonV.Canon JsonV.Fmt JsonV.Model.Quote JsonV.Spec.StringSpec
 open JsonV.Lemmas.CanonTree JsonV.Lemmas.CanonAtom JsonV.Lemmas.CanonSort JsonV.Lemmas.CanonForm JsonV.Lemmas.CanonParse
+open JsonV.Lemmas.CanonRound JsonV.Lemmas.CanonLex JsonV.Lemmas.CanonNest
 
 /-- What a successful call returns: the compact rendering of the canonical tree of a strict input. -/
 theorem canonicalize_eq_some (fp : FloatCodec) (b c : Bytes) :
@@ -421,6 +425,86 @@ theorem canon_no_ws (fp : FloatCodec) (hl : NumLex fp) (b c : Bytes) (h : canoni
     | null => rfl
     | tru => rfl
     | fls => rfl
+
+/-- `canon_roundtrip`: the output text tokenizes (C12's tokenizer) to exactly the tokens of the canonical tree and
+parses back to that tree — so every statement above about the tokens of `canonTree fp t` is a statement about
+the tokens of the returned bytes. -/
+theorem canon_roundtrip (fp : FloatCodec) (hl : NumLex fp) (b c : Bytes) (h : canonicalize fp b = some c) :
+    ∃ t, parseText b = some t ∧ strict t = true ∧ c = renderCompact (canonTree fp t).toks ∧
+      tokenize c = some (canonTree fp t).toks ∧ parseText c = some (canonTree fp t) := by
+  obtain ⟨t, hp, hs, rfl⟩ := (canonicalize_eq_some fp b c).mp h
+  refine ⟨t, hp, hs, rfl, ?_⟩
+  have hw := (parseText_wellNested b t hp)
+  have hparse : parse t.toks = some t := by
+    unfold parseText at hp
+    rw [hw.1] at hp
+    exact hp
+  obtain ⟨hacc, hatoms⟩ := accepts_canonTree fp t.toks t hparse hw.2.2
+  have hvalid : ∀ k ∈ (canonTree fp t).toks, k.valid = true := by
+    intro k hk
+    obtain ⟨k0, hk0, e⟩ := List.mem_map.mp ((toks_canonTree fp t).mem_iff.mp hk)
+    have v0 := hw.2.1 k0 hk0
+    subst e
+    cases k0 with
+    | str raw => exact canonStr_valid raw
+    | num lit =>
+      show (Tok.num (canonNum fp lit)).valid = true
+      rw [canonNum_eq]
+      split
+      · exact v0
+      · exact hl _
+    | bo => rfl
+    | eo => rfl
+    | ba => rfl
+    | ea => rfl
+    | null => rfl
+    | tru => rfl
+    | fls => rfl
+  have htok : tokenize (renderCompact (canonTree fp t).toks) = some (canonTree fp t).toks :=
+    JsonV.Props.C12.tokenize_renderCompact _ ⟨hvalid, hacc⟩
+  refine ⟨htok, ?_⟩
+  unfold parseText
+  rw [htok]
+  exact parse_toks_self _ hatoms
+
+/-- `canon_idem`: canonicalizing the output again succeeds and returns the same bytes. -/
+theorem canon_idem (fp : FloatCodec) (hn : NumStable fp) (hl : NumLex fp) (b c : Bytes)
+    (h : canonicalize fp b = some c) : canonicalize fp c = some c := by
+  obtain ⟨t, _, hs, hc, _, hp⟩ := canon_roundtrip fp hl b c h
+  obtain ⟨hs', hid⟩ := canon_tree_idem fp hn t hs
+  unfold canonicalize
+  rw [hp]
+  simp only [hs', if_true, hid, hc]
+
+/-- The laws named as hypotheses above are jointly satisfiable (here by the degenerate codec that reads every
+literal as 0; for strconv itself they are validated by the harness): so none of the theorems is vacuous. -/
+example :
+    let fp : FloatCodec := ⟨fun _ => ⟨false, false, 0, 0⟩, fun _ => ([], 0)⟩
+    NumLex fp ∧ (∀ f, JsonV.Lemmas.NumFloat.WFD (fp.shortest f).1 (fp.shortest f).2) ∧ NumStable fp := by
+  refine ⟨?_, ?_, ?_⟩
+  · intro f
+    show (Tok.num (JsonV.Model.Number.appendFloat f.neg [] 0)).valid = true
+    cases f.neg <;> decide
+  · intro f
+    show JsonV.Lemmas.NumFloat.WFD [] 0
+    exact ⟨by simp, by simp, fun _ => rfl, by omega, by omega⟩
+  · intro lit
+    have e : ∀ l, canonNum ⟨fun _ => ⟨false, false, 0, 0⟩, fun _ => ([], 0)⟩ l = if shortInt l then l else [48] := by
+      intro l; rw [canonNum_eq]; rfl
+    rw [e lit]
+    split
+    · next h => rw [e lit, if_pos h]
+    · exact e [48]
+
+/-- and the model accepts and canonicalizes a concrete text: `{ "a":"A", "b" : [ true ] }` ↦ `{"a":"A","b":[true]}`
+(an input whose members are out of order goes through `List.mergeSort`, which `decide` cannot unfold; the
+`cmp canon` correspondence exercises those). -/
+example :
+    canonicalize ⟨fun _ => ⟨false, false, 0, 0⟩, fun _ => ([], 0)⟩
+      [0x7b, 0x20, 0x22, 0x61, 0x22, 0x3a, 0x22, 0x5c, 0x75, 0x30, 0x30, 0x34, 0x31, 0x22, 0x2c, 0x20, 0x22, 0x62, 0x22, 0x20, 0x3a, 0x20,
+       0x5b, 0x20, 0x74, 0x72, 0x75, 0x65, 0x20, 0x5d, 0x20, 0x7d]
+    = some [0x7b, 0x22, 0x61, 0x22, 0x3a, 0x22, 0x41, 0x22, 0x2c, 0x22, 0x62, 0x22, 0x3a, 0x5b, 0x74, 0x72, 0x75, 0x65, 0x5d, 0x7d] := by
+  decide +kernel
 
 end Canonicalize
 
